@@ -922,8 +922,9 @@ Section INV.
     WF (set_runq st (s_runq st ++ l)).
   Proof.
     intros W Hnd Hl.
-    apply (WF_restate st); auto; try reflexivity; try apply W.
-    - intros; split; reflexivity.
+    apply (WF_restate st);
+      [exact W | intros; split; reflexivity | intros; reflexivity | reflexivity | reflexivity | reflexivity
+       | reflexivity | apply W | | | ].
     - stsimpl. apply NoDup_app_disjoint; auto; [apply W|]. intros u Hu. apply Hl; auto.
     - intros u. stsimpl. change (getth (set_runq st (s_runq st ++ l)) u) with (getth st u).
       rewrite in_app_iff. intros [Hu|Hu]; [apply W; auto|].
@@ -951,17 +952,16 @@ Section INV.
     { apply (WF_same st); auto. unfold same_sched, st1; repeat split; try reflexivity. stsimpl. symmetry. apply W. }
     change (s_sleepq st1) with (s_sleepq st).
     destruct (hempty (s_sleepq st)) eqn:He.
-    - exists []. cbn [fst snd length]. rewrite app_nil_r.
+    - exists []. cbn [fst snd length]. rewrite !app_nil_r.
       assert (Hns : forall u, th_state (getth st u) <> SLEEPING).
       { intros u Hu. apply (wf_sleep _ W) in Hu. unfold hempty in He. destruct (hq (s_sleepq st)); [destruct Hu|discriminate]. }
       split; [reflexivity|]. split.
       { apply (WF_same st1); auto. unfold same_sched; repeat split; reflexivity. }
       split; [constructor|]. split; [reflexivity|].
-      repeat split; try reflexivity.
-      + intros u [].
-      + intros u []. 
-      + intros u []. 
-      + intros u Hu. exfalso. eapply Hns; eauto.
+      split; [reflexivity|]. split; [reflexivity|]. split; [reflexivity|]. split; [reflexivity|].
+      split; [reflexivity|]. split; [reflexivity|]. split; [reflexivity|].
+      split; [intros u []|]. split; [reflexivity|].
+      intros u Hu. exfalso. eapply Hns; eauto.
     - set (st2 := update_now st1).
       assert (W2 : WF st2) by (apply WF_update_now; auto).
       destruct (resume_expired_spec (length (hq (s_sleepq st2))) st2 [] W2 (le_n _)) as (wk & Hacc & W3 & Hnd & R3 & Hw & Ho & Hd & Fr).
@@ -986,8 +986,10 @@ Section INV.
   (* ---- the idler's round ------------------------------------------------------------------------ *)
   Lemma WF_set_clock st x : WF st -> s_now st <= x -> WF (set_clock st x).
   Proof.
-    intros W Hx. apply (WF_restate st); auto; try reflexivity; try apply W.
-    intros; split; reflexivity.
+    intros W Hx.
+    apply (WF_restate st);
+      [exact W | intros; split; reflexivity | intros; reflexivity | reflexivity | reflexivity | reflexivity
+       | reflexivity | exact Hx | apply W | apply W | apply W].
   Qed.
 
   Lemma WF_idler_round st : WF st -> WF (idler_round st).
